@@ -476,8 +476,18 @@ func piecesK(t *rapid.T, label string, max int) (b []byte, kind string) {
 func TestUTF8Random(t *testing.T) {
 	hx.Check(t, 10, func(t *rapid.T) {
 		s, kind := piecesK(t, "s", 64)
+		if rapid.Bool().Draw(t, "asciirun?") {
+			run := make([]byte, rapid.IntRange(1, 40).Draw(t, "asciirun"))
+			for i := range run {
+				run[i] = 'a' + byte(i%26)
+			}
+			s = append(run, s...)
+		}
 		chunks := gen.Chunks(t, "chunks")
 		bufs := rapid.SliceOfN(rapid.IntRange(1, 12), 1, 6).Draw(t, "bufs")
+		if rapid.IntRange(0, 2).Draw(t, "bigbuf?") == 0 {
+			bufs = []int{rapid.SampledFrom([]int{16, 32, 64, 256}).Draw(t, "bigbuf")}
+		}
 		eofWD := rapid.Bool().Draw(t, "eofwd")
 		hx.Eval()
 		valid := utf8.Valid(s)
@@ -865,13 +875,16 @@ func noteMessage(payload []byte, cuts []int, extra string) {
 }
 
 // corpus of short payloads: every well-formed boundary, every ill-formed class.
+var goodSeqs = []string{"a", "\x00", "\x7f", "\xc2\x80", "\xdf\xbf", "\xe0\xa0\x80", "\xe2\x82\xac", "\xed\x9f\xbf", "\xee\x80\x80",
+	"\xef\xbf\xbf", "\xf0\x90\x80\x80", "\xf1\x80\x80\x80", "\xf4\x8f\xbf\xbf"}
+
+var badSeqs = []string{"\x80", "\xbf", "\xc0\x80", "\xc1\xbf", "\xe0\x80\x80", "\xe0\x9f\xbf", "\xed\xa0\x80", "\xed\xbf\xbf",
+	"\xf0\x80\x80\x80", "\xf0\x8f\xbf\xbf", "\xf4\x90\x80\x80", "\xf5\x80\x80\x80", "\xf8\x88\x80\x80", "\xfe", "\xff",
+	"\xc2", "\xe2", "\xe2\x82", "\xf0", "\xf0\x90", "\xf0\x90\x80",
+	"\xc2\x20", "\xe2\x28\xa1", "\xe2\x82\x28", "\xf0\x28\x8c\xbc", "\xf0\x90\x28\xbc", "\xf0\x90\x80\x28", "\xe2\x82\xc2"}
+
 func shortPayloads() [][]byte {
-	good := []string{"a", "\x00", "\x7f", "\xc2\x80", "\xdf\xbf", "\xe0\xa0\x80", "\xe2\x82\xac", "\xed\x9f\xbf", "\xee\x80\x80",
-		"\xef\xbf\xbf", "\xf0\x90\x80\x80", "\xf1\x80\x80\x80", "\xf4\x8f\xbf\xbf"}
-	bad := []string{"\x80", "\xbf", "\xc0\x80", "\xc1\xbf", "\xe0\x80\x80", "\xe0\x9f\xbf", "\xed\xa0\x80", "\xed\xbf\xbf",
-		"\xf0\x80\x80\x80", "\xf0\x8f\xbf\xbf", "\xf4\x90\x80\x80", "\xf5\x80\x80\x80", "\xf8\x88\x80\x80", "\xfe", "\xff",
-		"\xc2", "\xe2", "\xe2\x82", "\xf0", "\xf0\x90", "\xf0\x90\x80",
-		"\xc2\x20", "\xe2\x28\xa1", "\xe2\x82\x28", "\xf0\x28\x8c\xbc", "\xf0\x90\x28\xbc", "\xf0\x90\x80\x28", "\xe2\x82\xc2"}
+	good, bad := goodSeqs, badSeqs
 	var out [][]byte
 	out = append(out, nil)
 	for _, list := range [][]string{good, bad} {
@@ -1036,6 +1049,66 @@ func TestMessageExhaustiveTiny(t *testing.T) {
 	hx.EvalN(n)
 	hx.Part("message reader: every text payload of <=2 bytes and the 3/4-byte cover x every two-fragment split x side x entry", int64(n), true)
 	classesFromStats("message/exhaustive-tiny", &st)
+}
+
+// Every sequence of the table at every offset 0..40 behind an ASCII run (every
+// position relative to 8- and 16-byte words of the read buffer), with ASCII
+// tails, delivered to the validator in ONE large Read as well as in 1-, 3-,
+// 8- and 16-byte reads; standalone and as a message through all entries.
+func TestAsciiRunAlignment(t *testing.T) {
+	const ascii = "The quick brown fox jumps over the lazy dog 0123456789"
+	tails := []string{"", "z", "lazy dog 0123456789"}
+	saBufs := [][]int{{256}, {1}, {3}, {8}, {16}}
+	var agg saStats
+	var st convStats
+	n, si := 0, 0
+	for _, list := range [][]string{goodSeqs, badSeqs} {
+		for _, seq := range list {
+			si++
+			if !hx.Mine(si) {
+				continue
+			}
+			for k := 0; k <= 40; k++ {
+				for ti, tail := range tails {
+					s := []byte(ascii[:k] + seq + tail)
+					for _, bufs := range saBufs {
+						var one saStats
+						n++
+						if msg := checkStandalone(s, nil, bufs, k&1 == 1, &one); msg != "" {
+							hx.Failf(t, saCase{Bytes: fmt.Sprintf("%x", s), Bufs: bufs, EOFWD: k&1 == 1}, "UTF8Reader: %s", msg)
+							return
+						}
+						agg.midOpen += one.midOpen
+						agg.midAtBound += one.midAtBound
+					}
+					if seq[0] >= 0x80 && k >= 7 {
+						hx.NonTrivial(hx.Hash("ascii-run", k, seq, ti), func() interface{} {
+							return map[string]interface{}{"kind": "ascii-run", "ascii_prefix": k, "sequence_hex": fmt.Sprintf("%x", seq), "tail": tail, "valid": utf8.Valid(s)}
+						})
+					}
+					for v := 0; v < 2*numEntries*2; v++ {
+						run := convRun{server: v&1 != 0, entry: (v >> 1) % numEntries}
+						var cuts []int
+						if v >= 2*numEntries { // fragmented in front of the sequence, 7-byte transport chunks
+							cuts = []int{k / 2}
+							run.chunks = []int{7}
+							run.bufs = []int{16}
+						}
+						run.frames = fragment(ref.OpText, s, cuts, run.server, k, nil)
+						n++
+						if msg := runConversation(run, &st); msg != "" {
+							hx.Failf(t, run.desc(), "%s", msg)
+							return
+						}
+					}
+				}
+			}
+		}
+	}
+	hx.EvalN(n)
+	hx.Part("ASCII run of 0..40 bytes ++ every sequence of the valid/invalid/truncated table ++ 3 ASCII tails: standalone in one Read and in 1/3/8/16-byte reads; as a message x side x entry x {one frame + one read, fragmented + chunked}", int64(n), true)
+	classesFromStats("message/ascii-run", &st)
+	flushAggBulk(&agg)
 }
 
 // drawCuts draws fragment boundaries; positions inside multi-byte sequences are preferred.
